@@ -635,7 +635,7 @@ pub fn finish(ctx: &Ctx) -> i32 {
     crate::engine::finish(
         ctx,
         Finish {
-            rule: "complete: every enumerant of ExecutionMode and Decoration; for ImageOperands, LoopControl, MemoryAccess, TensorAddressingOperands: 0, all bits, every single bit, every pair, all subsets when <= 12 bits, random subsets otherwise; every Operand variant (every enumerant of every kind, 0/all for masks, the literal/id/string variants); every (host instruction, parameterised kind) pair of the grammar (49: OpDecorate, OpMemberDecorate, OpDecorateId, OpDecorateString..., OpExecutionMode(Id), image / memory / cooperative-matrix instructions) x every enumerant or bit. Oracle: (a) differential inside rspirv: the instruction carrying the value followed by words for the parameter kinds parses, and the operand variants delivered after the value equal the kinds additional_operands() reports (sequence for enumerants, multiset for masks); one parameter word fewer / one word more is rejected; (b) both equal the golden parameter list; (c) required capabilities/extensions equal the golden sets of the enumerant / union over set bits; (d) id_ref_any().is_some() iff IdRef/IdScope/IdMemorySemantics; writing through id_ref_any_mut changes exactly that word of assemble(); (e) From<payload> then unwrap_* returns the payload: every enumerant / mask value, and generated u32 / u64 / id / opcode payloads and arbitrary Rust strings (NULs, multi-byte, empty, long) through From<String> and From<&str>. non-trivial = value with at least one parameter / id-carrying operand; distinct = (kind, value).",
+            rule: "complete: every enumerant of ExecutionMode and Decoration; for ImageOperands, LoopControl, MemoryAccess, TensorAddressingOperands: 0, all bits, every single bit, every pair, all subsets when <= 12 bits, random subsets otherwise; every Operand variant (every enumerant of every kind, 0/all for masks, the literal/id/string variants); every (host instruction, parameterised kind) pair of the grammar (49: OpDecorate, OpMemberDecorate, OpDecorateId, OpDecorateString..., OpExecutionMode(Id), image / memory / cooperative-matrix instructions) x every enumerant or bit. Oracle: (a) differential inside rspirv: the instruction carrying the value followed by words for the parameter kinds parses, and the operand variants delivered after the value equal the kinds additional_operands() reports (sequence for enumerants, multiset for masks); one parameter word fewer / one word more is rejected; (b) both equal the golden parameter list; (c) required capabilities/extensions equal the golden sets of the enumerant / union over set bits; (d) id_ref_any().is_some() iff IdRef/IdScope/IdMemorySemantics; writing through id_ref_any_mut changes exactly that word of assemble(); (e) From<payload> then unwrap_* returns the payload: every enumerant / mask value, and generated u32 / u64 / id / opcode payloads and arbitrary Rust strings (NULs, multi-byte, empty, long) through From<String> and From<&str>. non-trivial = value with at least one parameter / id-carrying operand; distinct = (kind, value). Added in rounds 18-19: the parser clauses under 11 header versions and the generator word of every registered tool, for every shorter parameter list.",
             assumptions: vec!["parameter quantifiers of the Khronos JSON are not representable in the generated code and cannot be compared offline".into(), "golden parameter lists = snapshot of the pinned tree cross-checked parser-side vs reflection-side and against specification anchors".into()],
             trusted_base: vec!["golden/api.json".into(), "golden/source.json (parser-side parameters)".into()],
         },
